@@ -16,6 +16,7 @@ class RecEnv(Environment):
         self.seq = 0
         self.popped = []      # (record, now after the pop)
         self.problems = []
+        self.on_done = None   # called with every processed event (after its callbacks)
 
     def schedule(self, event, priority=NORMAL, delay=0):
         rec = {'ev': event, 'time': self.now + delay, 'prio': int(priority), 'seq': self.seq, 'typ': type(event).__name__,
@@ -43,6 +44,8 @@ class RecEnv(Environment):
                 if self.now < before:
                     self.problems.append(f'time went back from {before} to {self.now}')
                 self.popped.append((r, self.now))
+                if self.on_done is not None:
+                    self.on_done(r['ev'])
 
 
 def run_recorded(case):
@@ -87,7 +90,13 @@ class OracleRunner(kscript.Runner):
     waited for and received, every trigger / interrupt attempt, every condition, and when each event was processed"""
 
     def __init__(self, case):
-        super().__init__(case)
+        orig = kscript.Environment
+        kscript.Environment = RecEnv          # observe processing through the public step(), not through extra callbacks
+        try:
+            super().__init__(case)
+        finally:
+            kscript.Environment = orig
+        self.env.on_done = self._done
         self.rec = []           # chronological records
         self.processed = {}     # label -> (seqno, now, ok, value)
         self.conds = {}         # label -> (kind, [operand events])
@@ -97,16 +106,14 @@ class OracleRunner(kscript.Runner):
         self.seqno += 1
         return self.seqno
 
+    def _done(self, e):
+        lab = self.lab(e)
+        if lab and lab not in self.processed:
+            self.processed[lab] = (self._tick(), self.env.now, e._ok, e._value,
+                                   [self.lab(x) for x in e._value.events] if type(e._value).__name__ == 'ConditionValue' else None)
+
     def hook(self, what, *a):
-        if what == 'new':
-            ev = a[0]
-            if ev.callbacks is not None:
-                lab = self.nlabel
-                def cb(e, lab=lab):
-                    self.processed[lab] = (self._tick(), self.env.now, e._ok, e._value,
-                                           [self.lab(x) for x in e._value.events] if type(e._value).__name__ == 'ConditionValue' else None)
-                ev.callbacks.insert(0, cb)
-        elif what == 'yield':
+        if what == 'yield':
             name, ev = a
             name = (name, id(self.env.active_process))      # static names can be shared by several spawned processes
             self.rec.append(('yield', self._tick(), name, self.lab(ev), self.env.now, ev.callbacks is None, ev))
@@ -252,16 +259,41 @@ def leaves(r, ev):
     return [ev]
 
 
+def nodes(ev):
+    """all operands of a condition at every nesting level (conditions and leaves)"""
+    out = []
+    if type(ev).__name__ in ('AllOf', 'AnyOf', 'Condition'):
+        for e in ev._events:
+            out.append(e)
+            out += nodes(e)
+    return out
+
+
 def oracle_c05(case, lines, runner=None):
     """conditions: processed at the instant the predicate first holds; value = processed leaves in operand order"""
     r = instrumented(case)
     fails = []
     by_label = {r.lab(e): e for e in r.keep}
     ext = externally_triggered(r)
+    nested = set()      # conditions that are operands of other conditions: a parent that fires detaches their checks
+    for lab2 in r.conds:
+        c2 = by_label.get(lab2)
+        if c2 is not None:
+            nested |= {r.lab(e) for e in nodes(c2)}
     for lab, (kind, ops, t_created, seq_created) in r.conds.items():
         c = by_label.get(lab)
         p = r.processed.get(lab)
-        if c is None or p is None or lab in ext or any(r.lab(e) in ext for e in leaves(r, c)):
+        if c is None or lab in ext or any(r.lab(e) in ext for e in nodes(c)):
+            continue
+        if p is None:
+            # never processed: then its predicate must never have held (and no operand failed) by the end of the run
+            if not any(l.startswith('X ') for l in lines) and case.mode == 'step' and not ext and lab not in nested:
+                qs = [r.processed.get(r.lab(e)) for e in ops]
+                done = [q for q in qs if q is not None]
+                holds = (len(done) == len(ops)) if kind == 'allof' else (len(done) > 0 or not ops)
+                if holds or any(not q[2] for q in done):
+                    fails.append({'what': f'{kind} e{lab} over operands {[r.lab(e) for e in ops]} never fired although '
+                                          f'{len(done)} of {len(ops)} operands were processed', 'signature': 'c05-never-fired'}); break
             continue
         pseq, pnow, pok, pval, pkeys = p
         # instants at which the operands were processed (operands processed before construction count from construction)
